@@ -294,6 +294,12 @@ def specs_sir(tier):
                     for full in (False, True):
                         out.append(dict(fn="Gillespie_SIR", n=n, edges=es, tw=tw, rw=rw, tau=1.1, gamma=0.7,
                                         I0=list(I0), R0=[], tmin=tmin, tmax=tmax, full=full))
+    # self-loops (legal in networkx; a node can never infect itself)
+    for (n, es) in ((3, [(0, 1), (1, 2), (1, 1), (0, 0)]), (3, [(0, 1), (1, 2), (0, 2), (2, 2)])):
+        for (tw, rw) in ((None, None), ("w", "rw")):
+            for I0 in gr.subsets(range(n), 1, 2):
+                for full in (False, True):
+                    out.append(dict(fn="Gillespie_SIR", n=n, edges=es, tw=tw, rw=rw, tau=0.3, gamma=0.7, I0=list(I0), R0=[], full=full))
     # probability-zero outcomes of the uniform draws (exactly 0.0): zero-weight links/nodes must NEVER be chosen
     for (n, es) in (gr.NAMED["K3"], gr.NAMED["P3"]):
         for I0 in gr.subsets(range(n), 1, 1):
@@ -329,6 +335,10 @@ def specs_sis(tier):
             for I0 in gr.subsets(nodes, 1, 1):
                 out.append(dict(fn="Gillespie_SIS", n=n, edges=es, tw="w", rw="rw", tau=0.3, gamma=0.7, I0=list(I0), tmin=0, tmax=3.5,
                                 full=False, zero_draws=True, zero_first=True))
+            for (tw, rw) in ((None, None), ("w", "rw")):
+                for I0 in gr.subsets(nodes, 1, 2):
+                    out.append(dict(fn="Gillespie_SIS", n=n, edges=list(es) + [(1, 1), (0, 0)], tw=tw, rw=rw, tau=0.3, gamma=0.7, I0=list(I0),
+                                    tmin=0, tmax=4.5, full=(len(I0) == 1)))
         # exact hit of tmax and shifted tmin
         for tmin, tmax in ((0, 3), (1.5, 4.5), (-2, 0.5)):
             for I0 in gr.subsets(nodes, 1, 1):
